@@ -170,11 +170,26 @@ def countLine (j : Json) : String :=
   let n := if jBool j "truncated" then jNat j "n" else countLeaves cfg 64 { w := init st reqs, q := [] }
   s!"count scenario={jStr j "scn"} threads={reqs.length} schedules={n} truncated={jBool j "truncated"}"
 
+/-- first use, a hostile OpenID4VP response that deletes keys of its own choosing in the oauth/nonce store (no effect on
+    any other store: `keyspace_disjoint`; it never names the live nonce of the scenario), then the replay -/
+def crossLine (j : Json) : String :=
+  let cfg := today false true
+  let reqs := (jArr j "threads").filterMap parseReq
+  let st : Store := (jArr j "init").foldl (fun st ij =>
+    match kindOf (jStr ij "kind") with
+    | some k => stPut st ⟨k, jStr ij "id"⟩ ⟨jStr ij "val", cfg.ttl k⟩
+    | none => st) []
+  let sched : List Ev := (List.replicate 8 (Ev.step 0)) ++ (List.replicate 8 (Ev.step 1))
+  let w := run cfg sched (init st reqs)
+  let outs := w.ths.map (fun t => match t.outcome with | some o => o.name | none => "stuck")
+  s!"cross kind={jStr j "kind"} first={outs.getD 0 "?"} hostile=missing-param replay={outs.getD 1 "?"}"
+
 def step (u : Unit) (j : Json) : Unit × List String :=
   match jStr j "op" with
   | "run" => (u, [runLine j])
   | "window" => (u, [windowLine j])
   | "count" => (u, [countLine j])
+  | "cross" => (u, [crossLine j])
   | "note" => (u, ["note " ++ jStr j "text"])
   | o => (u, ["bad-op:" ++ o])
 
